@@ -5,6 +5,7 @@
 // name: RectClipLinesPaths64.vertices-in-rect RectClipLinesPaths64.vertices-on-line RectClipLinesPaths64.segments-kept RectClipLinesPaths64.coverage
 // what: (vertices) every output vertex lies within the rectangle (at most 1 unit outside) and within 1 unit of an input segment; (segments-kept) a two-point segment with both end points strictly inside the rectangle is returned as it is, and a polyline is never closed up (an output path never has more vertices inside the rectangle than its input line has vertices plus crossings); (coverage) the eighth-points of every input segment that are more than 2 units from the rectangle boundary lie within 1 unit per coordinate of an output segment exactly when they are inside the rectangle (zero-length segments are skipped)
 // bound: every polyline of 2..3 points (quick) / 2..4 points (thorough) over the 5x5 grid {0,8,..,32}^2 against the rectangles [8,24]^2, [4,20]x[12,28] and [0,32]x[8,16], exhaustive; plus 50000 (quick) / 1000000 (thorough) pseudo-random polylines of 4..9 points on the 6x6 grid {0,8,..,40}^2 against four rectangles, seeded by VERIF_SEED (sampled, not exhaustive)
+// sampled: RectClipLinesPaths64.vertices-in-rect RectClipLinesPaths64.vertices-on-line RectClipLinesPaths64.segments-kept RectClipLinesPaths64.coverage
 
 package go_clipper2
 
